@@ -34,7 +34,8 @@ def main():
         rows.append("| %s | %s | %s | %s | %s |" % (
             mid, meta["property"], "; ".join(meta["files"]).replace("coxeter/", ""),
             meta["needs_to_manifest"], (", ".join(caught_by) + " (" + ", ".join(sorted(rules)) + ")")
-            if caught_by else "**not caught**"))
+            if caught_by else ("**not caught** — " + meta["not_caught_reason"]
+                               if meta.get("not_caught_reason") else "**not caught**")))
     text = ("## 13. Seeded changes and which checks catch them **[as built]**\n\n"
             "Each change was written by an independent sub-agent that saw only the property text "
             "and its own scratch worktree (nothing from /verif); `selftest/intake.py` confirmed "
